@@ -464,7 +464,12 @@ fn normalize_space(
         &model::Value::Node(vec![node])
     };
     let r = String::try_from(arg)?;
-    let w = r.split_whitespace().collect::<Vec<&str>>();
+    // XPath 1.0 4.2 / XML S: white space is #x20 #x9 #xD #xA only
+    // (`split_whitespace` also splits at U+00A0, U+2003, U+3000, ...)
+    let w = r
+        .split(|c| matches!(c, ' ' | '\t' | '\r' | '\n'))
+        .filter(|v| !v.is_empty())
+        .collect::<Vec<&str>>();
     Ok(model::Value::Text(w.join(" ")))
 }
 
